@@ -1,6 +1,9 @@
 package oidc
 
 import (
+	"io"
+	"net/http"
+	"strings"
 	"time"
 
 	"github.com/alicebob/miniredis/v2"
@@ -13,6 +16,7 @@ import (
 
 func init() {
 	verifHarnesses["VerifC18_TimeoutsPerFilter"] = VerifC18_TimeoutsPerFilter
+	verifHarnesses["VerifC18_DiscoveryIsPerConfigurationURI"] = VerifC18_DiscoveryIsPerConfigurationURI
 }
 
 // VerifC18_TimeoutsPerFilter: the real start-up wiring (sessionStoreFactory.PreRun / Get) for two
@@ -135,4 +139,60 @@ func VerifC10_StartUpWiring() {
 	vn.Cover("C10/wiring", true)
 	vn.Assert("C10/store-built-with-the-filter's-absolute-timeout", gotAbs == time.Duration(abs)*time.Second)
 	vn.Assert("C10/store-built-with-the-filter's-idle-timeout", gotIdle == time.Duration(idle)*time.Second)
+}
+
+// kitDiscoveryByURL is a provider that serves one discovery document per exact request URL.
+type kitDiscoveryByURL struct {
+	docs  map[string]string
+	asked []string
+}
+
+func (d *kitDiscoveryByURL) RoundTrip(r *http.Request) (*http.Response, error) {
+	u := r.URL.String()
+	d.asked = append(d.asked, u)
+	body, ok := d.docs[u]
+	if !ok {
+		return &http.Response{StatusCode: 404, Status: "404 Not Found", Body: io.NopCloser(strings.NewReader(""))}, nil
+	}
+	return &http.Response{StatusCode: 200, Status: "200 OK", Body: io.NopCloser(strings.NewReader(body))}, nil
+}
+
+// VerifC18_DiscoveryIsPerConfigurationURI: "each filter's own endpoints govern its sessions" for
+// filters that discover them. The process-wide discovery cache is shared by all filters; two
+// filters whose configuration URIs denote different resources (another host, another path, or the
+// same path with another query -- tenants and policies are commonly selected that way) each get
+// the endpoints published at THEIR URI, in whichever order they ask and however often.
+func VerifC18_DiscoveryIsPerConfigurationURI() {
+	uris := []string{
+		"https://idp.example/.well-known/openid-configuration",
+		"https://idp.example/.well-known/openid-configuration?p=tenant-a",
+		"https://idp.example/.well-known/openid-configuration?p=tenant-b",
+		"https://idp.example/tenant-a/.well-known/openid-configuration",
+		"https://other.example/.well-known/openid-configuration",
+	}
+	idp := &kitDiscoveryByURL{docs: map[string]string{}}
+	ends := make([]string, len(uris))
+	for i, u := range uris {
+		ends[i] = "https://authz-" + string(rune('0'+i)) + ".example/authorize"
+		doc := vn.NewJSON("discovery"+string(rune('0'+i)), 3)
+		vn.JSONStr(doc, "authorization_endpoint", 1, ends[i])
+		vn.JSONStr(doc, "token_endpoint", 1, "https://token-"+string(rune('0'+i))+".example/token")
+		vn.JSONStr(doc, "jwks_uri", 1, "https://keys-"+string(rune('0'+i))+".example/keys")
+		idp.docs[u] = vn.JSONText(doc)
+	}
+	client := &http.Client{Transport: idp}
+	a := vn.Choice("first-filter-uri", len(uris))
+	b := vn.Choice("second-filter-uri", len(uris))
+	if a == b {
+		return
+	}
+	ask := func(label string, i int) {
+		got, err := GetWellKnownConfig(client, uris[i])
+		vn.Assert("C18/discovered-endpoints-are-those-of-the-filter's-own-uri:"+label, vn.And(err == nil, got.AuthorizationEndpoint == ends[i],
+			got.TokenEndpoint == "https://token-"+string(rune('0'+i))+".example/token", got.JWKSURL == "https://keys-"+string(rune('0'+i))+".example/keys"))
+	}
+	ask("first", a)
+	ask("second", b)
+	ask("first-again", a)
+	vn.Cover("C18/discovery-per-uri", true)
 }
